@@ -300,10 +300,12 @@ func (p *printVisitor) EnterOperationDefinition(ref int) {
 
 	hasName := p.document.OperationDefinitions[ref].Name.Length() > 0
 	hasVariables := p.document.OperationDefinitions[ref].HasVariableDefinitions
+	hasDirectives := p.document.OperationDefinitions[ref].HasDirectives
 
 	switch p.document.OperationDefinitions[ref].OperationType {
 	case ast.OperationTypeQuery:
-		if hasName || hasVariables {
+		// the shorthand form `{ ... }` is only available to a query without name, variables and directives
+		if hasName || hasVariables || hasDirectives {
 			p.write(literal.QUERY)
 		}
 	case ast.OperationTypeMutation:
